@@ -1,16 +1,20 @@
-(* C12 driver: same line protocol as harness/h_exf.c, answered by the extracted model (coq/FS/Exf.v) *)
+(* C12 driver: same line protocol as harness/h_exf.c, answered by the extracted model (coq/FS/Exf.v).
+   `limit <n>` sets the oracle of the operating system handed to every later call: os_limit n (RLIMIT_FSIZE = n),
+   `limit -1` = os_any (no refusal). *)
 let q = tree_quirks
 let rcname rc =
   if rc = Z0 then "OK"
   else if rc = eXF_E_OOB then "OOB" else if rc = eXF_E_NOT_ALIGNED then "NOTALIGNED"
   else if rc = eXF_E_OVERFLOW then "OVERFLOW" else if rc = eXF_E_MAXOFF then "MAXOFF"
   else if rc = eXF_E_POLFAIL then "POLFAIL" else if rc = eXF_E_OVERLAP then "OVERLAP"
-  else if rc = eXF_E_NOTMM then "NOTMM" else if rc = eXF_CRASH then "CRASH"
+  else if rc = eXF_E_NOTMM then "NOTMM" else if rc = eXF_CRASH then "CRASH" else if rc = eXF_E_IO then "IOERR"
   else "E" ^ string_of_z rc
 
 let kfile : z list ref = ref []        (* the file as the kernel keeps it across close/open *)
 let st : exf option ref = ref None
 let poisoned = ref false
+let lim : z option ref = ref None
+let ok () = match !lim with None -> os_any | Some l -> os_limit l
 
 let tail () =
   match !st with
@@ -25,6 +29,10 @@ let fin op rc s' =
 let handle toks =
   match toks with
   | [] -> ""
+  | ["limit"; n] ->
+    let v = z_of_string n in
+    lim := (if sign_of_z v < 0 then None else Some v);
+    "limit OK" ^ tail ()
   | "open" :: trunc :: isz :: mo :: pol :: rest ->
     let trunc = trunc <> "0" in
     st := None;
@@ -37,7 +45,7 @@ let handle toks =
         | "mul", _ -> PMul (Z0, Z0)
         | "muln", _ -> PMulNull
         | _ -> PDefault in
-      let (rc, s) = exfile_open !kfile (z_of_string isz) (z_of_string mo) p in
+      let (rc, s) = exfile_open (ok ()) !kfile (z_of_string isz) (z_of_string mo) p in
       if rc = Z0 then st := Some s;
       "open " ^ rcname rc ^ tail ()
     end
@@ -48,7 +56,7 @@ let handle toks =
     | Some s ->
       (match op, args with
        | "write", [off; h] ->
-         let ((rc, sp), s') = exfile_write q s (z_of_string off) (bytes_of_hex h) in
+         let ((rc, sp), s') = exfile_write q (ok ()) s (z_of_string off) (bytes_of_hex h) in
          if rc = eXF_CRASH then (poisoned := true; "write CRASH")
          else (st := Some s'; Printf.sprintf "write %s %s%s" (rcname rc) (string_of_z sp) (tail ()))
        | "read", [off; n] ->
@@ -56,9 +64,9 @@ let handle toks =
          if rc = eXF_CRASH then (poisoned := true; "read CRASH")
          else Printf.sprintf "read %s %s %s%s" (rcname rc) (string_of_z sp) (hex_of_bytes b) (tail ())
        | "copy", [off; siz; noff] ->
-         let (rc, s') = exfile_copy q s (z_of_string off) (z_of_string siz) (z_of_string noff) in fin "copy" rc s'
-       | "truncate", [sz] -> let (rc, s') = truncate_lw s (z_of_string sz) in fin "truncate" rc s'
-       | "ensure", [sz] -> let (rc, s') = ensure_size_lw q s (z_of_string sz) in fin "ensure" rc s'
+         let (rc, s') = exfile_copy q (ok ()) s (z_of_string off) (z_of_string siz) (z_of_string noff) in fin "copy" rc s'
+       | "truncate", [sz] -> let (rc, s') = truncate_lw (ok ()) s (z_of_string sz) in fin "truncate" rc s'
+       | "ensure", [sz] -> let (rc, s') = ensure_size_lw q (ok ()) s (z_of_string sz) in fin "ensure" rc s'
        | "addmm", [off; ml; fl] ->
          let (rc, s') = add_mmap_lw s (z_of_string off) (z_of_string ml) (z_of_string fl) in fin "addmm" rc s'
        | "rmmm", [off] -> let (rc, s') = remove_mmap_lw s (z_of_string off) in fin "rmmm" rc s'
